@@ -13,6 +13,7 @@ import (
 	"context"
 	"fmt"
 	"net"
+	"strings"
 	"sync"
 	"time"
 
@@ -106,13 +107,25 @@ func c11CloseRaceRun(variant int) (o c11CloseRaceObs) {
 			res[i] = ccDoCall(ctx, client, fmt.Sprintf("during-%d", i)).res
 		}(i)
 	}
-	wg.Wait()
-	o.DuringRes = res
+	// the calls carry a 2 s deadline: they return promptly whatever Close is doing
+	callsDone := make(chan struct{})
+	go func() { wg.Wait(); close(callsDone) }()
+	stuck := false
+	select {
+	case <-callsDone:
+	case <-time.After(5 * time.Second):
+		stuck = true
+	}
+	o.DuringRes = append([]int{}, res...)
 	close(first.gate)
+	<-callsDone
 	select {
 	case <-closeDone:
 	case <-time.After(3 * time.Second):
 		o.Note = "Close did not return"
+	}
+	if stuck {
+		o.Note = "calls issued while Close was inside the transport's Close did not return within 5 s although their contexts expired after 2 s (they returned once Close was let go)"
 	}
 	ctx, cancel := context.WithTimeout(context.Background(), 2*time.Second)
 	o.AfterRes = ccDoCall(ctx, client, "after").res
@@ -151,6 +164,9 @@ func c11CloseRace(c *h.Ctx) {
 		}
 		if o.Note == "Close did not return" {
 			c.Fail("C11/close-hangs", "Client.Close did not return within 3 s after the transport's Close was released", cj)
+		}
+		if strings.HasPrefix(o.Note, "calls issued while Close") {
+			c.Fail("C11/hang/call-during-close", o.Note, cj)
 		}
 	}
 }
